@@ -403,9 +403,9 @@ def h10a_shards(tier):
     out = []
     for kind in ("plain", "versioned", "btree"):
         for rel in (True, False):
-            if tier == "quick" and kind == "versioned" and not rel:
-                continue  # versioned zones share WritableVersion with plain zones
-            states = ["base", "mixed", "apexcname"] if tier == "quick" else list(PREFIXES)
+            if tier == "quick" and kind == "versioned":
+                continue  # versioned zones share WritableVersion with plain zones (thorough tier; H10b/H10e keep them in quick)
+            states = (["base", "mixed", "apexcname"] if rel else ["base", "mixed"]) if tier == "quick" else list(PREFIXES)
             for st in states:
                 for op1 in range(9):
                     out.append({"zone": kind, "relativize": rel, "state": st, "n": 1, "op1": op1, "forms": st == "base",
@@ -462,6 +462,8 @@ def h10e_shards(tier):
             for pre_ns in (False, True):
                 for op1 in (ADD, REPLACE, DEL_TYPE, DEL_RDATA, DEL_NAME, DELX_RDATA):
                     if tier == "quick" and kind != "btree" and op1 not in (ADD, DEL_TYPE):
+                        continue
+                    if tier == "quick" and kind == "versioned" and pre_ns:
                         continue
                     out.append({"zone": kind, "relativize": rel, "pre_ns": pre_ns, "op1": op1, "_timeout": 900, "_path_timeout": 60})
     return out
@@ -586,8 +588,8 @@ def h10f_pre(op1, o1, c1, r1, op2, o2, c2, r2, ab):
             return False
         if op == S_DEL_A and (c != 0 or r != 0):
             return False
-    if S("tier") == "quick" and ab and op1 >= S_DEL_RD:
-        return False  # quick: the absolute spelling only with the delete-by-type forms
+    if S("tier") == "quick" and ab and op1 != S_DEL_TYPE:
+        return False  # quick: the absolute spelling only with delete-by-type
     if S("tier") == "quick" and op2 in (S_REPLACE, S_DEL_A) and op1 >= S_ADD:
         return False  # quick: add / replace / delete-A are followed by a signature deletion or an add
     return op1 == S("op1")
